@@ -29,7 +29,7 @@ def profile(name, **kw):
         callers=(1, 3), small=False, check_all_every=16, nontarget=True,
         tx=dict(edit=6, query=3, derive_edit=0, relabel=0, twin=0, pair=0, mutant=0,
                 enum=0, enant=0, react=0, persist=0, algebra=0, faults=0, flip=0,
-                isomers=0, symnum=0, wlpair=0, large=0, hubs=0, build=1),
+                isomers=0, symnum=0, wlpair=0, large=0, hubs=0, copies=0, build=1),
         fault_rate=(0.0, 0.15),
     )
     tx = dict(base["tx"])
@@ -44,10 +44,10 @@ profile("C19", tx=dict(edit=6, query=2, faults=4, relabel=1, build=1), steps=(30
 profile("C10", tx=dict(edit=3, query=1, derive_edit=8, relabel=1, react=1, persist=1, algebra=2, isomers=1, build=1),
         nontarget=True, check_all_every=4, callers=(2, 4))
 profile("C11", tx=dict(edit=3, query=2, relabel=8, twin=1, derive_edit=1, algebra=1, large=0.06, build=1))
-profile("C01", tx=dict(edit=4, query=1, twin=8, relabel=1, derive_edit=1, large=0.08, hubs=0.2, build=2), max_atoms=(1, 12))
-profile("C03", tx=dict(edit=4, query=2, twin=8, pair=1, large=0.08, hubs=0.2, build=2), max_atoms=(1, 12))
+profile("C01", tx=dict(edit=4, query=1, twin=8, relabel=1, derive_edit=1, large=0.08, hubs=0.2, copies=1, build=2), max_atoms=(1, 12))
+profile("C03", tx=dict(edit=4, query=2, twin=8, pair=1, large=0.08, hubs=0.2, copies=0.5, build=2), max_atoms=(1, 12))
 profile("C02", tx=dict(edit=4, pair=5, mutant=6, derive_edit=2, wlpair=5, build=2), small=True, max_atoms=(2, 8))
-profile("C05", tx=dict(edit=3, enum=8, symnum=2, derive_edit=2, wlpair=4, build=2), small=True, max_atoms=(2, 13),
+profile("C05", tx=dict(edit=3, enum=8, symnum=2, derive_edit=2, wlpair=4, copies=1, build=2), small=True, max_atoms=(2, 13),
         callers=(2, 4))
 profile("C06", tx=dict(edit=3, enant=6, derive_edit=2, build=2), small=True, max_atoms=(2, 7),
         classes=("SMG", "SCRG"))
@@ -1139,6 +1139,63 @@ class Gen:
         for s in slots:
             if s in self.w.slots and rng.random() < 0.7 and not self.w.slots[s].locks:
                 yield dict(k="drop", s=s)
+
+    def tx_copies(self):
+        """several copies of one small (reaction) motif in one graph: the
+        search has to pair the copies up consistently, and for reaction graphs
+        the first adjacency-preserving mapping usually does not preserve the
+        bond roles"""
+        rng = self.rng
+        if len(self.w.slots) + 2 > self.w.max_slots:
+            for s in self.graphs(unlocked=True)[:2]:
+                yield dict(k="drop", s=s)
+        kind = rng.choice(self.cfg["classes"])
+        k = rng.choice((2, 2, 3))
+        n = rng.choice((3, 4, 4, 6))
+        z = rng.choice(self.cfg["elements"])
+        z2 = rng.choice(self.cfg["elements"])
+        ring = [(i, (i + 1) % n) for i in range(n)] if n > 2 else [(0, 1)]
+        if rng.random() < 0.3:
+            ring = ring[:-1]                      # chains instead of rings
+        roles = []
+        pattern = rng.choice(("alt", "alt", "random", "none"))
+        for i, _b in enumerate(ring):
+            if kind not in ("CRG", "SCRG") or pattern == "none":
+                roles.append(None)
+            elif pattern == "alt":
+                roles.append(("FORMED", "BROKEN")[i % 2])
+            else:
+                roles.append(rng.choice((None, "FORMED", "BROKEN", "FLEETING")))
+        spect = rng.choice((0, 0, 2, 4))          # unbonded spectator atoms
+        base = rng.choice((0, 50, -30))
+        atoms, bonds = [], []
+        nxt = base
+        for c in range(k):
+            ids = list(range(nxt, nxt + n))
+            nxt += n
+            for j, a in enumerate(ids):
+                atoms.append([a, z if j % 2 == 0 else z2])
+            for (x, y), r in zip(ring, roles):
+                bonds.append([ids[x], ids[y], r])
+        for _ in range(spect):
+            atoms.append([nxt, rng.choice((z, 2))])
+            nxt += 1
+        rng.shuffle(atoms)
+        rng.shuffle(bonds)
+        s = self.slot_id()
+        yield dict(k="spec", dst=s, cls=kind, atoms=atoms, bonds=bonds, reserved=True)
+        if self.w.graph(s) is None:
+            return
+        for _ in range(rng.randint(1, 3)):
+            yield dict(k="probe_twin", s=s, seed=rng.randrange(2 ** 31), route=rng.choice(("fresh", "relabel", "fresh")))
+        if self.room() and rng.random() < 0.6:
+            e = self.slot_id()
+            yield dict(k="enum_open", g1=s, g2=s, dst=e, stereo=False, changes=False, labels=rng.choice((None, None, "degree")))
+            if e in self.w.slots:
+                yield dict(k="gen_drain", g=e, tamper=None)
+                yield dict(k="gen_close", g=e, how="close")
+        if s in self.w.slots and not self.w.slots[s].locks:
+            yield dict(k="drop", s=s)
 
     def tx_hubs(self):
         """two molecules with hypervalent centres (7 neighbours, no descriptor)
